@@ -223,6 +223,36 @@ fn sq_attach_under_innermost() {
     std::mem::forget(q); // no drop glue: its slice loop would need its own unwind bound
 }
 
+// C06: a property attached right after a child span finished — the child's last record being a
+// property of its own, nothing recorded in between — belongs to the parent, and the child's stays
+// on the child alone.  (The two attachments have different targets, so they cannot share a
+// pseudo-span record whatever packing an implementation uses for attachments of one target.  A
+// formulation that scans all records for (target, key, value) triples ran out of memory at 12 GB.)
+#[kani::proof]
+#[kani::unwind(3)]
+fn sq_attach_after_child_finished() {
+    symbolic_env();
+    let mut q = SpanQueue::with_capacity(8);
+    let a = q.start_span(N_A).unwrap();
+    let ida = q.span_queue[a.index].id;
+    let b = q.start_span(N_B).unwrap();
+    let idb = q.span_queue[b.index].id;
+    q.add_properties([(K1, V1)]);
+    q.finish_span(b);
+    q.add_properties([(K2, V2)]);
+    let s = &q.span_queue;
+    assert!(s.len() == 4, "an attachment was lost or merged into a record of another target");
+    assert!(s[2].raw_kind == RawKind::Properties && s[2].parent_id == idb, "the child's property moved to another span");
+    let p2 = s[2].properties.as_ref().unwrap();
+    assert!(p2.len() == 1 && same(&p2[0].0, K1) && same(&p2[0].1, V1), "the finished child received an attachment made after it finished");
+    assert!(s[3].raw_kind == RawKind::Properties && s[3].parent_id == ida, "a property attached after the child finished did not land on the parent");
+    let p3 = s[3].properties.as_ref().unwrap();
+    assert!(p3.len() == 1 && same(&p3[0].0, K2) && same(&p3[0].1, V2));
+    assert!(s[0].properties.is_none() && s[1].properties.is_none(), "an attachment through the local parent ended up on a span record");
+    kani::cover!(true);
+    std::mem::forget(q);
+}
+
 // C06: with_properties hits the span the handle denotes (outer or inner, symbolic) and no other.
 #[kani::proof]
 #[kani::unwind(3)]
